@@ -11,6 +11,10 @@ CHECKS = {
          "Regimes.tla holds, per one-variable function, its evaluation regimes (Taylor window around 1, large-argument expansion, special-cased points 0, 1/4, 1, tiny-argument branch) as argument classes; TLC enumerates (function, class), the harness places adjacent doubles on both sides of every regime boundary and random points inside every regime; Defs.tla holds the published closed forms as exact polynomial identities N(x, atoms)/D(x) and Trace_C01.tla decides |y - N/D| <= 1e-7 max(|N/D|, S) in exact arithmetic on the logged doubles (1e-13 for Li2, Cl2, complex Li2), the documented values at 0 and 1, and NaN for negative arguments",
          "K8, K9 repaired (large-argument expansions); transcendental atoms (log, Li2, f_PS, Cl2) from mpmath at 400 bits are trusted; points are sampled within each class",
          "TLA+ trace validation (Trace_C01.tla, Defs.tla, Dyadic.tla) over TLC-enumerated regime classes (Regimes.tla)", "DESIGN 5/C01"),
+ "C02": ("exploration",
+         "Regimes.tla holds the case analysis of the many-variable functions as argument classes (generic, exactly equal, nearly equal at 1e-12..1e-1, an argument equal or close to 1, both in the 1e-4 window around 1, both small, vanishing Kaellen function exactly and at 1e-12..1e-3, zero arguments, physical quark masses over charged-Higgs masses); Defs.tla holds the definitions with their degenerate cases (Fa, Fb from G3, G4 and their derivatives, Iabc with its equal-argument and zero limits, Phi and Phi/lambda^2 from the Davydychev-Tausk function, the Kaellen polynomial, the difference quotients FPZ, FSZ, FCWl with the limit x f' - f, f_CSd, f_CSu of Eqs.(61),(62) and their quotients FCWu, FCWd); Trace_C02.tla decides the definitional comparison (1e-6, Fa / Fb 1e-4, floor 1e-13 M^p), permutation invariance and homogeneity (Iabc, Phi, lambda^2) in exact arithmetic",
+         "K10, K19 repaired; atoms from mpmath at 400 bits are trusted; FCWu / FCWd at exactly equal scales are left to the C11 paths; tuples are sampled within each class",
+         "TLA+ trace validation (Trace_C02.tla, Defs.tla, Dyadic.tla) over TLC-enumerated argument classes (Regimes.tla)", "DESIGN 5/C02"),
  "C04": ("exploration",
          "Trace_C04.tla contains the tree-level mass matrices of the nine sfermion sectors, three sneutrinos, charginos and neutralinos written from the Lagrangian (D-terms from T3 and Q, GUT-normalised g1, SLHA sign of mu) and validates, with exact products, that every reported mass/mixing pair reconstructs them (Z^T diag(m^2) Z, U^T diag(m) V, N^T diag(m) N), that mixing matrices are unitary, masses non-negative and ordered, Goldstones at index 0 with MZ, MW, the tree-level Higgs identities and chargino/neutralino trace/determinant relations hold, a tachyon is reported exactly for a negative eigenvalue of a monitored sector, and exchanging two generations exchanges the spectra",
          "Higgs-sector matrices are not reconstructed (their soft masses are fixed internally by the tadpole equations): identities only; magnitudes sampled; tolerance 1e-11 of the matrix norm",
